@@ -23,6 +23,65 @@ def builds(tier):
     return bs
 
 
+SLOTS_MAX = 16384
+
+
+def stack_program(depth, rows):
+    """`depth` nested calls of a function holding 250 locals; the innermost builds nested vector literals whose pending elements stay on the stack"""
+    locs = " ".join("var l%d = %d;" % (i, i) for i in range(250))
+    expr = "0"
+    for r in reversed(rows):
+        expr = "[" + "0, " * r + expr + "]"
+    return ("fn rec(n) { %s if n == 0 { var v = %s; return v.len(); } return rec(n - 1); }\nprint(rec(%d));\n" % (locs, expr, depth))
+
+
+def stack_boundary(rep, bins):
+    import tracevm
+    by = dict(bins)
+    rel = by.get("release") or bins[-1][1]
+    depth = 61
+
+    def peak(rows):
+        c = {"id": "sb", "main": stack_program(depth, rows), "gc": "never", "events": tracevm.EV_OPS, "stack_mb": 64}
+        r = Pool(rel, "run", timeout=120).map([c])[0]
+        hs = [e.get("sl", 0) for e in r.get("events", []) if isinstance(e, dict) and e.get("e") == "Op"]
+        return (max(hs) if hs else 0), r
+    base, _ = peak([0])
+    if base == 0 or base >= SLOTS_MAX - 10:
+        raise vlib.ToolError("stack boundary probe: no usable base measurement (%r)" % base)
+    n = 0
+    for target in (SLOTS_MAX - 2, SLOTS_MAX - 1, SLOTS_MAX):
+        need = target - base
+        rows, left = [], need
+        while left > 0:
+            rows.append(min(250, left))
+            left -= rows[-1]
+        # each further nesting level costs slots of its own: measure and adjust the last row
+        for _ in range(6):
+            p, rr = peak(rows)
+            if p == target:
+                break
+            rows[-1] += target - p
+            if rows[-1] < 0 or rows[-1] > 255:
+                break
+        p, rr = peak(rows)
+        if p != target:
+            raise vlib.ToolError("stack boundary probe: could not build a program with peak %d (got %d)" % (target, p))
+        src = stack_program(depth, rows)
+        outs = {}
+        for bname, binary in bins:
+            r = Pool(binary, "run", timeout=120).map([{"id": "sb", "main": src, "gc": "never", "stack_mb": 64}])[0]
+            n += 1
+            outs[bname] = ("ok", vlib.run_output_lines(r["runs"][0])) if "runs" in r and r["runs"][0]["ok"] else ("failed", {k: r[k] for k in r if k != "events"})
+        for bname, o in outs.items():
+            if o[0] != "ok" or o != outs[bins[0][0]]:
+                rep.violation("a call chain whose value stack peaks at %d of %d slots does not complete alike on every build: %r" % (target, SLOTS_MAX, outs),
+                              {"source": src[:3000], "peak": target, "outcomes": outs})
+                break
+    rep.coverage["stack_boundary_programs"] = n
+    return n
+
+
 def main(tier, seed):
     rep = Report(PROP, tier, seed, "model_checking")
     rng = random.Random(seed)
@@ -52,6 +111,11 @@ def main(tier, seed):
         total += k
         rep.coverage["states"] = rep.coverage.get("states", 0) + max(stats["generated"], len(runs))
         rep.coverage["transitions"] = rep.coverage.get("transitions", 0) + stats["generated"]
+    # the value stack's last slots: StackBudget.tla gives a fiber SlotsMax = 16384 slots; call chains whose measured peak height (the largest
+    # value-stack height in the instruction events of the optimised build, Opcodes.tla's effect per instruction) is SlotsMax - 2 .. SlotsMax
+    # must complete, with the same output, on every build - the checked build's bounds test may not refuse a slot the optimised build uses.
+    # (A peak above SlotsMax is the recorded finding value-stack-overrun-with-wide-frames of C02 and is not run here.)
+    total += stack_boundary(rep, bins)
     # allocation-heavy loops (several collections under the paced policy): no expectation from the machine (too long a run),
     # every build must print the same
     from checks.c16 import LOOPS
